@@ -168,6 +168,7 @@ fn case_direct(t: &mut Tape, ctx: &CaseCtx) -> CaseResult {
     let mut c = gen_cfg(t);
     let events_only = t.chance(1, 3);
     let reconfigure = t.chance(1, 4);
+    let mixed = !events_only && t.chance(1, 4);
     let reconf_style: Vec<usize> = (0..4).map(|_| t.choose(6)).collect();
     if t.chance(1, 6) {
         // a forced ETag: any visible-ASCII text
@@ -258,7 +259,14 @@ fn case_direct(t: &mut Tape, ctx: &CaseCtx) -> CaseResult {
         }
         let mut rb = RequestBuilder::new(&config, &params);
         for i in &order {
-            rb = if events_only { rb.add_event(&apps[*i], Event::success(EventType::UpdateComplete)) } else { rb.add_update_check(&apps[*i]).add_ping(&apps[*i]) };
+            rb = if events_only {
+                rb.add_event(&apps[*i], Event::success(EventType::UpdateComplete))
+            } else if mixed {
+                // an update check that also carries an event for the same app (the builder and the protocol allow it)
+                rb.add_update_check(&apps[*i]).add_ping(&apps[*i]).add_event(&apps[*i], Event::success(EventType::UpdateComplete))
+            } else {
+                rb.add_update_check(&apps[*i]).add_ping(&apps[*i])
+            };
         }
         rb = rb.session_id(GUID::new()).request_id(GUID::new());
         let (req, meta) = match rb.build(handler.as_ref()) {
@@ -391,6 +399,9 @@ fn case_direct(t: &mut Tape, ctx: &CaseCtx) -> CaseResult {
     }
     if events_with_other_cohort {
         classes.push("event_request_with_adopted_cohort");
+    }
+    if mixed {
+        classes.push("update_check_with_piggybacked_event");
     }
     if c.etag_override.is_some() {
         classes.push("forced_etag");
